@@ -580,13 +580,15 @@ def check_C12(inp):
         pass
     except Exception as e:  # noqa
         return "from_rh_vector(no slash) raises %s" % type(e).__name__
-    try:
-        C.from_rh_vector("%.1f/%s/ZZ:Q" % (base, vector))
-        return "from_rh_vector accepts an invalid vector part"
-    except MAL:
-        pass
-    except Exception as e:  # noqa
-        return "invalid vector part raises %s" % type(e).__name__
+    # an invalid vector part raises the ordinary malformed-vector error, whatever the score part
+    for tail in ("%s/ZZ:Q" % vector, "", "/", " ", "garbage", "/" + vector, vector + "/"):
+        try:
+            C.from_rh_vector("%.1f/%s" % (base, tail))
+            return "from_rh_vector accepts the invalid vector part %r" % tail
+        except MAL:
+            pass
+        except Exception as e:  # noqa
+            return "invalid vector part %r raises %s instead of the malformed-vector error" % (tail, type(e).__name__)
     return None
 
 
@@ -816,11 +818,19 @@ def run_builder(version, all_metrics, answers, no_colors=True):
 
     it = iter(answers)
     used = [0]
+    eofs = [0]
+
+    class KeepsAsking(BaseException):
+        pass
 
     def fake_input(*a):
         try:
             x = next(it)
         except StopIteration:
+            eofs[0] += 1
+            if eofs[0] > 200:
+                # end of input was signalled 200 times and the builder still asks
+                raise KeepsAsking()
             raise EOFError()
         used[0] += 1
         return x
@@ -833,6 +843,8 @@ def run_builder(version, all_metrics, answers, no_colors=True):
             r = IA.ask_interactively(version, all_metrics, no_colors)
     except EOFError:
         r = EOFError
+    except KeepsAsking:
+        r = "the builder keeps asking after end of input (EOFError raised 200 times by the input function)"
     finally:
         IA.string_input = saved
     return r, used[0], buf.getvalue()
@@ -899,8 +911,11 @@ def check_C17(inp):
     stdin = inp.get("stdin")
     env = dict(os.environ)
     env["PYTHONPATH"] = REPO
-    p = subprocess.run([sys.executable, "-m", "cvss.cvss_calculator"] + argv, input=stdin if stdin is not None else "",
-                       capture_output=True, text=True, env=env, cwd=REPO, timeout=60)
+    try:
+        p = subprocess.run([sys.executable, "-m", "cvss.cvss_calculator"] + argv, input=stdin if stdin is not None else "",
+                           capture_output=True, text=True, env=env, cwd=REPO, timeout=20)
+    except subprocess.TimeoutExpired:
+        return "the calculator does not terminate within 20 s for %r with %d lines of input" % (argv, len((stdin or "").splitlines()))
     if p.returncode != 0:
         return "exit status %d for %r; stderr: %s" % (p.returncode, argv, p.stderr.strip()[-300:])
     if "Traceback" in p.stderr:
